@@ -3,7 +3,7 @@
 EXTENDS GitBug, TLC
 
 CONSTANTS MaxCommit,    \* bound on the commit universe
-          RankDir,      \* 1 or -1: the (unknowable) order of pack ids relative to creation order
+          RankDir,      \* 1: pack ids ascend with creation order, 2: they descend (the real order is unknowable)
           WithRestart,  \* include Reopen / DeleteClocks
           LoaderLess    \* also reopen without clock loaders (as a caller that passes none)
 
@@ -14,7 +14,7 @@ RunChoices == { <<[au |-> a1, n |-> 1]>>,
                 <<[au |-> a2, n |-> 2]>>,
                 <<[au |-> a1, n |-> 1], [au |-> a2, n |-> 1]>> }
 
-Rk == [i \in 1..(MaxCommit + 2) |-> RankDir * i]
+Rk == [i \in 1..(MaxCommit + 2) |-> IF RankDir = 1 THEN i ELSE 0 - i]
 
 Room(n) == Len(commits) + n <= MaxCommit
 
